@@ -19,6 +19,7 @@ import (
 // specification's acceptance conditions (refmodel/crypto2_dh.go).
 func runC13(c *mon.Ctx) {
 	c.Rule("(a) CheckGP on EVERY safe prime 7 < p < L (L = 2e6 quick / 5e7 thorough) and every prime p = 3 mod 4 below L/8, each with g in -1..9 and a few far-out g; oracle: g in 2..7 and Euler's criterion g^((p-1)/2) = 1 mod p. " +
+		"(a') CheckGP on multi-word moduli: every committed prime (2047..2049 bits) and random primes = 3 mod 4 of 65..320 bits x g in -1..9 vs Euler's criterion; random odd numbers of 65..4096 bits x g vs the specification's residue rule computed with big.Int.Mod (CheckGP sees p only through p mod 8/3/5/24/7). " +
 		"(b) CheckDH on the committed 2048-bit safe primes (Telegram production, RFC 3526 group 14, RFC 7919 ffdhe2048, 8 generated; re-verified at start) with g in -1..9, and on mutated moduli: p+-2, bit flips, 2p+1, (p-1)/2, 3p, -p, 2047/2049-bit safe primes, primes with composite (p-1)/2, composites with prime (p-1)/2, 2^2047, 2^2048-1 ...; oracle: 2^2047 < p < 2^2048, p and (p-1)/2 prime, g as in (a). " +
 		"(c) CheckDHParams on the complete cross product of 19 boundary values for g_a and g_b (0, 1, 2, p-2, p-1, p, 2^1984-1.., p-2^1984+1.., random inside) x 10 values of g for random 2048-bit moduli and degenerate moduli; InRange on random triples with x at and next to the bounds; oracle: the spec inequalities, strict. " +
 		"(d) DecomposePQ on all pairs of the first 300 primes (complete, includes squares and 2q), random balanced 32x32-bit semiprimes just below 2^63, squares, unbalanced, 2q and near-limit products; oracle: exactly (min, max) of the two primes the product was built from. " +
@@ -34,7 +35,7 @@ func runC13(c *mon.Ctx) {
 	for _, arm := range []struct {
 		name string
 		f    func()
-	}{{"gp", func() { c13GP(c) }}, {"dh", func() { c13DH(c, ms) }}, {"range", func() { c13Range(c, ms) }}, {"history", func() { c13History(c, ms) }}, {"pq", func() { c13PQ(c) }}} {
+	}{{"gp", func() { c13GP(c) }}, {"gp-wide", func() { c13GPWide(c, ms) }}, {"dh", func() { c13DH(c, ms) }}, {"range", func() { c13Range(c, ms) }}, {"history", func() { c13History(c, ms) }}, {"pq", func() { c13PQ(c) }}} {
 		t0 := time.Now()
 		arm.f()
 		c.Set("wall_s_arm_"+arm.name, math.Round(time.Since(t0).Seconds()*10)/10) // informational only
@@ -318,6 +319,11 @@ func c13Range(c *mon.Ctx, ms []modulus) {
 			{"-1", big.NewInt(-1)}, {"0", zero}, {"1", one}, {"2", big.NewInt(2)}, {"3", big.NewInt(3)}, {"7", big.NewInt(7)},
 			{"p-2", rel(p, p, -2)}, {"p-1", rel(p, p, -1)}, {"p", p}, {"2^1984", margin},
 		}
+		// immutability: the arguments are shared by all calls of this modulus; snapshot them now, compare after the loops
+		var snapshot []string
+		for _, v := range append(append([]c13Val{{"p", p}}, vals...), gvals...) {
+			snapshot = append(snapshot, v.V.Text(16))
+		}
 		gOK := func(x *big.Int) bool { return refmodel.C2SpecInRange(x, one, rel(p, p, -1)) }
 		abOK := func(x *big.Int) bool { return gOK(x) && refmodel.C2SpecInRange(x, margin, pm) }
 		for _, ga := range vals {
@@ -353,6 +359,11 @@ func c13Range(c *mon.Ctx, ms []modulus) {
 						c.Sample("dhparams", map[string]any{"modulus_class": m.class, "g": g.L, "g_a": ga.L, "g_b": gb.L})
 					}
 				}
+			}
+		}
+		for i, v := range append(append([]c13Val{{"p", p}}, vals...), gvals...) {
+			if v.V.Text(16) != snapshot[i] {
+				c.Violate("immutability|CheckDHParams|argument-modified", map[string]any{"argument": v.L, "before": snapshot[i], "after": v.V.Text(16), "modulus_class": m.class})
 			}
 		}
 	}
